@@ -291,5 +291,56 @@ def r20_3(ctx):
     (ctx.ok(construct, h.loc(), nontrivial=False) if ok else ctx.bad(construct, "anchor predicate changed", h.loc()))
 
 
+def r20_5(ctx):
+    """R20.5 (a) the per-item visibility memo is used only for named items defined exactly once (a definition's visibility also
+    depends on its enclosing menu); (b) number literals - decimal, hex and float - are never taken for undefined symbols;
+    (c) every member of a written choice gets its anchor, because _has_docs_anchor() promises one for every member of a
+    visible choice."""
+    repo = ctx.repo
+    v = repo.func(f"{DOC}:ConfigTargetVisibility._visible")
+    ctx.analysed(v.qual)
+    sd = [n for n in ast.walk(v.node) if isinstance(n, ast.Assign) and ast.unparse(n.targets[0]) == "simple_def"]
+    construct = "ConfigTargetVisibility._visible/memo only for named items with a single definition"
+    fl = Flow(v.node).run()
+    ok = bool(sd)
+    for n in sd:
+        t = ast.unparse(n.value)
+        gs = fl.guards_at(n) or set()
+        sym_arm = any("kconfiglib.Symbol" in k and p for k, p in gs)
+        if sym_arm:
+            ok = ok and "len(node.item.nodes) <= 1" in t and "name_id is not None" in t
+        else:
+            ok = ok and t == "False"
+    st = [n for n in ast.walk(v.node) if isinstance(n, ast.Assign) and ast.unparse(n.targets[0]).startswith("self.visibility[")]
+    ok = ok and bool(st) and all(("simple_def", True) in (fl.guards_at(n) or set()) for n in st)
+    (ctx.ok(construct, v.loc(sd[0]) if sd else v.loc()) if ok else
+     ctx.bad(construct, "the verdict of one definition (or of one unnamed choice) is reused for others: an option defined again inside a visible menu is omitted, or "
+             "written with a breadcrumb into a menu that is not", v.loc(sd[0]) if sd else v.loc()))
+    u = repo.func(f"{DOC}:_is_undefined_reference")
+    ctx.analysed(u.qual)
+    src = ast.unparse(u.node)
+    construct = "_is_undefined_reference/decimal, hex and float literals are not undefined symbols"
+    ok = "not kconfiglib._looks_like_number(sym.name)" in src and "not kconfiglib.is_float(sym.name)" in src
+    (ctx.ok(construct, u.loc()) if ok else
+     ctx.bad(construct, "the literal test no longer covers both _looks_like_number (decimal, 0x...) and is_float: such a literal in a relation is folded to n", u.loc()))
+    w = repo.func(f"{DOC}:write_menu_item")
+    fw = Flow(w.node).run()
+    mem = [n for n in ast.walk(w.node) if isinstance(n, ast.Call) and ast.unparse(n.func) == "f.write" and n.args and "get_link_anchor(choice_node)" in ast.unparse(n.args[0])]
+    construct = "write_menu_item/every member of a written choice gets its anchor"
+    if not mem:
+        ctx.bad(construct, "member anchors are not written", w.loc())
+    else:
+        loop = None
+        p = repo.parent(mem[0])
+        while p is not None and not isinstance(p, ast.While):
+            p = repo.parent(p)
+        loop = p
+        gs = fw.guards_at(mem[0]) or set()
+        extra = sorted(g for g in gs if "choice_node" in g[0] and g != ("choice_node", True))
+        skips = [x for x in ast.walk(loop) if isinstance(x, (ast.Continue, ast.Break))] if loop is not None else []
+        (ctx.bad(construct, f"members are skipped ({extra or 'continue/break in the loop'}) although _has_docs_anchor() reports an anchor for every member of a visible "
+                 "choice: a :ref: to a skipped member dangles", w.loc(mem[0])) if extra or skips else ctx.ok(construct, w.loc(mem[0])))
+
+
 def rules():
-    return [("R20.1", r20_1, 8), ("R20.2", r20_2, 3), ("R20.4", r20_4, 5), ("R20.3", r20_3, 7)]
+    return [("R20.1", r20_1, 8), ("R20.2", r20_2, 3), ("R20.4", r20_4, 5), ("R20.3", r20_3, 7), ("R20.5", r20_5, 3)]
